@@ -567,15 +567,18 @@ static void examine_brace(Chunk *bopen)
          LOG_FMT(LBRDEL, "%s(%d): for pc->Text() '%s', pc->GetLevel() is %zu,  bopen->GetLevel() is %zu\n",
                  __func__, __LINE__, pc->Text(), pc->GetLevel(), bopen->GetLevel());
 
+         // a nested compound statement '{ ... }' sits one level below bopen
          if (  pc->Is(CT_BRACE_OPEN)
-            && pc->GetLevel() == bopen->GetLevel())
+            && pc->GetLevel() == level
+            && pc->GetParentType() == CT_NONE)
          {
             br_count++;
             LOG_FMT(LBRDEL, "%s(%d): br_count is now %d, pc->GetLevel() is %zu,  bopen->GetLevel() is %zu\n",
                     __func__, __LINE__, br_count, pc->GetLevel(), bopen->GetLevel());
          }
          else if (  pc->Is(CT_BRACE_CLOSE)
-                 && pc->GetLevel() == bopen->GetLevel())
+                 && pc->GetLevel() == level
+                 && pc->GetParentType() == CT_NONE)
          {
             if (br_count == 0)
             {
@@ -650,7 +653,7 @@ static void examine_brace(Chunk *bopen)
                || pc->Is(CT_SWITCH)
                || pc->Is(CT_USING_STMT)
                || (  pc->Is(CT_BRACE_OPEN)
-                  && pc->GetLevel() == bopen->GetLevel())) // Issue #1758
+                  && pc->GetParentType() == CT_NONE))      // Issue #1758
             {
                LOG_FMT(LBRDEL, "%s(%d): pc->Text() '%s', orig line is %zu, orig col is %zu, level is %zu\n",
                        __func__, __LINE__, pc->Text(), pc->GetOrigLine(), pc->GetOrigCol(), pc->GetLevel());
